@@ -167,3 +167,47 @@ Proof.
     + rewrite upd_eq in Hr. exists (e :: trg). simpl. now rewrite E.
     + rewrite upd_neq in Hr by auto. exists trg. exact Hr.
 Qed.
+
+(* ---------- progress: the protocol never blocks by itself ---------- *)
+
+Lemma main_enabled sg s t : is_main (pcs s t) = true -> exists e s', step sg s e = Some s'.
+Proof.
+  intro H. destruct (pcs s t) as [|c0| | |old|nw o|oi ap|r|r|r] eqn:Hpc; try discriminate.
+  - exists (EPrepare t false). simpl. rewrite Hpc. eauto.
+  - exists (ECommit t). simpl. rewrite Hpc. destruct old as [o|]; [|eauto].
+    destruct (apply_changes (idx o) (map snd (items s))) as [|new]; [eauto|].
+    destruct (negb (is_nil new) || sg); [eauto|]. destruct o; eauto.
+  - exists (EPut t true). simpl. rewrite Hpc. eauto.
+  - exists (EDel t true). simpl. rewrite Hpc. eauto.
+  - exists (EComplete t). simpl. rewrite Hpc. eauto.
+Qed.
+
+Lemma progress sg s :
+  InvS s -> (exists t, holding (pcs s t) = true) -> exists e s', step sg s e = Some s'.
+Proof.
+  intros I (t & Ht).
+  destruct (pcs s t) as [|c0| | |old|nw o|oi ap|r|r|r] eqn:Hpc; try discriminate;
+    try (apply (main_enabled sg s t); rewrite Hpc; reflexivity).
+  - exists (EAssign t). simpl. rewrite Hpc. destruct (committed s); eauto.
+  - assert (Hni : items s <> []).
+    { destruct (i_wait s I t Hpc) as [Hb|Hp].
+      - unfold batch in Hb. destruct (items s); [destruct Hb|discriminate].
+      - intro E. destruct (i_nomain s I E) as (_ & _ & Ep & _). rewrite Ep in Hp. destruct Hp. }
+    destruct (i_token_or_main s I Hni) as [Htok|(t' & Hm)]; [|eapply main_enabled; eauto].
+    destruct (items s) as [|[t1 c1] rest] eqn:Ei; [congruence|].
+    assert (Hin : In (t1, c1) (items s)) by (rewrite Ei; now left).
+    destruct (i_items s I t1 c1 Hin) as [[Hw|Hm] _].
+    + exists (ERecvMain t1). simpl. rewrite Hw, Htok. simpl.
+      assert (Hmem : mem t1 (batch s) = true) by (apply mem_In; unfold batch; rewrite Ei; now left).
+      rewrite Hmem. eauto.
+    + destruct (i_main_in s I t1 Hm). congruence.
+  - exists (EDone t). simpl. rewrite Hpc.
+    destruct (i_pool s I) as (hs & _ & Hin & Hp).
+    destruct (pool s) as [rc|]; [eauto|]. subst hs.
+    assert (Hx : In t []) by (apply Hin; rewrite Hpc; reflexivity). destruct Hx.
+Qed.
+
+Lemma no_deadlock sg r0 st0 tr s :
+  run sg (init r0 st0) tr = Some s -> (exists t, holding (pcs s t) = true) ->
+  exists e s', step sg s e = Some s'.
+Proof. intros H Hh. eapply progress; eauto. eapply runS; eauto using invS_init. Qed.
